@@ -443,6 +443,25 @@ func c01Specs(thorough bool) []mb.Msg {
 			}
 		}
 	}
+	// body parts with a charset of their own (a label only: go-mail does not transcode) next to files with non-ASCII
+	// names: the part's charset belongs to that part and to nothing else
+	for _, cs := range []string{"ISO-8859-1", "US-ASCII", "UTF-16"} {
+		for which := 1; which < 4; which++ { // bit 0: first part, bit 1: second (= last) part
+			for _, fe := range []string{"", "8bit"} {
+				s := mb.Msg{Parts: []mb.Part{{Type: "text/plain", Content: texts[0]}, {Type: "text/html", Content: texts[1]}},
+					Embeds: []mb.File{{Name: "Löwe.png", Content: bins[4], Enc: fe}}, Attach: []mb.File{{Name: "Grüße – Übersicht.txt", Content: texts[2], Enc: fe}, {Name: "plain.bin", Content: bins[5]}}}
+				if which&1 != 0 {
+					s.Parts[0].Charset = cs
+				}
+				if which&2 != 0 {
+					s.Parts[1].Charset = cs
+				}
+				specs = append(specs, s)
+				single := mb.Msg{Parts: []mb.Part{{Type: "text/plain", Content: texts[0], Charset: cs}}, Attach: []mb.File{{Name: "ünï.bin", Content: bins[3], Enc: fe}}}
+				specs = append(specs, single)
+			}
+		}
+	}
 	// 7bit (EncodingUSASCII): ASCII content must come out unencoded
 	ascii := [][]byte{[]byte("plain ascii\r\nwith a=b and =3D literal\r\n"), []byte(repeatTo("a long ascii line without any break ", 300) + "\r\n"), []byte(".dot\r\ntrailing blank \r\n"), []byte("x")}
 	for ai, a := range ascii {
@@ -505,8 +524,8 @@ func init() {
 	vf.Register(&vf.Check{
 		ID: "C01", Title: "rendered MIME carries exactly the content the caller supplied",
 		Run: func(r *vf.Run) {
-			r.SetRule("builder programs in canonical order: 0..3 body parts × 0..2 embeds × 0..2 attachments × message encoding {QP, base64, 8bit} × file encoding {default base64, 8bit, QP via File.Enc} × per-part encodings/descriptions/content types/fixed boundary, contents rotated through a 25-entry text alphabet and an 18-entry binary alphabet (wrap points 57/58/75/76/77, dots, '=', boundary-like lines, bare CR/LF, all 256 byte values, 3000-byte binary); plus every single byte value in every encoding; plus files supplied through AttachReader/EmbedReader (memory recycled by the caller afterwards; one scratch buffer refilled per file) and Attach/EmbedReadSeeker, both also on a source that stands behind a header the caller has consumed already; bodies and files produced from text/html templates; part contents replaced through Part.SetContent; files taken over from another Msg (SetEmbeds(other.GetEmbeds()) …) that is Reset, refilled and rendered afterwards; attributes given through setters instead of options (Msg.SetEncoding / SetCharset / SetBoundary after NewMsg, or everything — incl. Part.SetContentType / SetEncoding / SetCharset / SetDescription — after the message was assembled); messages rendered while still incomplete and completed afterwards; each program is rendered through WriteTo, WriteToFile onto an existing longer file, NewReader, Write, WriteToTempFile, a second WriteTo of the same Msg, a WriteTo that follows one into a sink failing at 1/8..7/8 of the rendering, and WriteToSendmailWithContext into a program that stores its input; each rendering is re-read by the harness' own MIME reader and compared leaf by leaf; distinct by program")
-			r.Assume("file media types without WithFileContentType are those of mime.TypeByExtension", "charset of text parts is the default UTF-8", "NUL bytes are not text")
+			r.SetRule("builder programs in canonical order: 0..3 body parts × 0..2 embeds × 0..2 attachments × message encoding {QP, base64, 8bit} × file encoding {default base64, 8bit, QP via File.Enc} × per-part encodings/descriptions/content types/charsets/fixed boundary, contents rotated through a 25-entry text alphabet and an 18-entry binary alphabet (wrap points 57/58/75/76/77, dots, '=', boundary-like lines, bare CR/LF, all 256 byte values, 3000-byte binary); plus every single byte value in every encoding; plus files supplied through AttachReader/EmbedReader (memory recycled by the caller afterwards; one scratch buffer refilled per file) and Attach/EmbedReadSeeker, both also on a source that stands behind a header the caller has consumed already; bodies and files produced from text/html templates; part contents replaced through Part.SetContent; files taken over from another Msg (SetEmbeds(other.GetEmbeds()) …) that is Reset, refilled and rendered afterwards; attributes given through setters instead of options (Msg.SetEncoding / SetCharset / SetBoundary after NewMsg, or everything — incl. Part.SetContentType / SetEncoding / SetCharset / SetDescription — after the message was assembled); messages rendered while still incomplete and completed afterwards; each program is rendered through WriteTo, WriteToFile onto an existing longer file, NewReader, Write, WriteToTempFile, a second WriteTo of the same Msg, a WriteTo that follows one into a sink failing at 1/8..7/8 of the rendering, and WriteToSendmailWithContext into a program that stores its input; each rendering is re-read by the harness' own MIME reader and compared leaf by leaf; distinct by program")
+			r.Assume("file media types without WithFileContentType are those of mime.TypeByExtension", "the charset of a text part is a label: the harness compares bytes, not characters", "NUL bytes are not text")
 			specs := c01Specs(r.Thorough)
 			r.Extra("programs", len(specs))
 			r.Parallel(len(specs), "C01 programs", func(i int) {
